@@ -94,6 +94,8 @@ class UserAddNode(ActionGroup):
 
         pred, succ = self.tracks.get_track_neighbors(track_id, time)
 
+        # edges that conflict with the new node; only deleted once all checks passed
+        conflicting_edges: list[tuple[int, int]] = []
         # check if you are adding a node to a track that divided previously
         if pred is not None and self.tracks.graph.out_degree(pred) == 2:
             if not force:
@@ -104,12 +106,7 @@ class UserAddNode(ActionGroup):
             else:
                 # Delete both conflicting edges in the upstream division.
                 succ_of_pred1, succ_of_pred2 = self.tracks.successors(pred)
-                self.actions.append(
-                    UserDeleteEdge(tracks, (pred, succ_of_pred1), _top_level=False)
-                )
-                self.actions.append(
-                    UserDeleteEdge(tracks, (pred, succ_of_pred2), _top_level=False)
-                )
+                conflicting_edges = [(pred, succ_of_pred1), (pred, succ_of_pred2)]
 
         # check if you are adding a node to a track of which the parent track will divide
         # downstream
@@ -127,9 +124,19 @@ class UserAddNode(ActionGroup):
                     )
                 else:
                     # Delete the conflicting edge
-                    self.actions.append(
-                        UserDeleteEdge(tracks, (pred_of_succ, succ), _top_level=False)
-                    )
+                    conflicting_edges = [(pred_of_succ, succ)]
+
+        # validate the position before the first sub-action, so that a refused action
+        # leaves the tracks untouched
+        if pixels is None:
+            pos_key = tracks.features.position_key
+            pos_keys = pos_key if isinstance(pos_key, list) else [pos_key]
+            if not all(key in attributes for key in pos_keys):
+                raise ValueError(f"Must provide position or segmentation for node {node}")
+        for conflicting_edge in conflicting_edges:
+            self.actions.append(
+                UserDeleteEdge(tracks, conflicting_edge, _top_level=False)
+            )
 
         # Determine lineage_id from existing track nodes (if any)
         lineage_key = tracks.features.lineage_key
